@@ -17,22 +17,97 @@ PASSIVE = ("Expire", "Drop", "Advance")  # steps the real timer takes on its own
 def _tier(tier):
     if tier == "quick":
         return dict(mc="Timer_mc_quick.cfg", cover="Timer_cover.cfg", timer_extra=150, ctl_leaves=150, ctl_extra=60,
-                    unit="12ms", par=64, record_runs=160, vpath=3, mc_stop=150)
+                    unit="15ms", par=64, record_runs=160, vpath=3, mc_stop=150, attack_extra=3, single_attacks=False)
     return dict(mc="Timer_mc_thorough.cfg", cover="Timer_cover_thorough.cfg", timer_extra=3000, ctl_leaves=4000,
-                ctl_extra=2000, unit="15ms", par=96, record_runs=2500, vpath=25, mc_stop=1500)
+                ctl_extra=2000, unit="20ms", par=96, record_runs=2500, vpath=25, mc_stop=1500, attack_extra=40, single_attacks=True)
 
 
-ATTACKS = [  # (cfg, the guard that is removed)
-    ("Timer_attack_noRoundCheckOnWake.cfg", "waiter calls back without comparing the armed round: OnlyLatest"),
-    ("Timer_attack_noRoundCheckOnWake_sup.cfg", "waiter calls back without comparing the armed round: Superseded"),
-    ("Timer_attack_deadlineFromNow.cfg", "deadline counted from the arming instead of the slot start: NeverEarly"),
-    ("Timer_attack_quickThreshold.cfg", "quick allowance used one round too long: NeverEarly"),
-    ("Timer_attack_cancelIgnored.cfg", "cancellation of the parent context ignored: AfterCancelQuiet"),
-    ("Timer_attack_tickerNotTimer.cfg", "waiter keeps firing after its callback: OncePerArming"),
-    ("Timer_attack_ctlNoRoundCheck.cfg", "OnTimeout without the old-round check: StaleNoChange"),
-    ("Timer_attack_ctlNoDecidedCheck.cfg", "OnTimeout without the decided check: StaleNoChange"),
-    ("Timer_attack_ctlNoStopCheck.cfg", "UponRoundTimeout on a force-stopped instance: StaleNoChange"),
+ATTACKS = [  # (single-guard cfg, the guard that is removed, the invariant TLC must report violated)
+    ("Timer_attack_noRoundCheckOnWake.cfg", "noRoundCheckOnWake", "OnlyLatest"),
+    ("Timer_attack_noRoundCheckOnWake_sup.cfg", "noRoundCheckOnWake", "Superseded"),
+    ("Timer_attack_deadlineFromNow.cfg", "deadlineFromNowNotSlotStart", "NeverEarly"),
+    ("Timer_attack_quickThreshold.cfg", "quickThresholdOffByOne", "NeverEarly"),
+    ("Timer_attack_cancelIgnored.cfg", "cancelIgnored", "AfterCancelQuiet"),
+    ("Timer_attack_tickerNotTimer.cfg", "tickerNotTimer", "OncePerArming"),
+    ("Timer_attack_ctlNoRoundCheck.cfg", "ctlNoRoundCheck", "StaleNoChange"),
+    ("Timer_attack_ctlNoDecidedCheck.cfg", "ctlNoDecidedCheck", "StaleNoChange"),
+    ("Timer_attack_ctlNoStopCheck.cfg", "ctlNoStopCheck", "StaleNoChange"),
 ]
+GUARD_TEXT = {
+    "noRoundCheckOnWake": "waiter calls back without comparing the armed round",
+    "deadlineFromNowNotSlotStart": "deadline counted from the arming instead of the slot start",
+    "quickThresholdOffByOne": "quick allowance used one round too long",
+    "cancelIgnored": "cancellation of the parent context ignored",
+    "tickerNotTimer": "waiter keeps firing after its callback",
+    "ctlNoRoundCheck": "OnTimeout without the old-round check",
+    "ctlNoDecidedCheck": "OnTimeout without the decided check",
+    "ctlNoStopCheck": "UponRoundTimeout on a force-stopped instance",
+}
+
+
+def _violated(st):
+    """invariants of Timer.tla violated in a dumped state - each is a flag the SPEC computed (fired[k].early/stale/sup/
+    afterCancel, cbad) or the callback count per round; nothing is re-derived here"""
+    out = set()
+    fired = st.get("fired") or []
+    rounds = [f["round"] for f in fired]
+    if len(rounds) != len(set(rounds)):
+        out.add("OncePerArming")
+    for f in fired:
+        if f["stale"]:
+            out.add("OnlyLatest")
+        if f["early"]:
+            out.add("NeverEarly")
+        if f["sup"]:
+            out.add("Superseded")
+        if f["afterCancel"]:
+            out.add("AfterCancelQuiet")
+    if st.get("cbad") == "stale-changed":
+        out.add("StaleNoChange")
+    if st.get("cbad") == "live-not-moved":
+        out.add("CurrentBumps")
+    return out
+
+
+def _attack_behaviours(nodes, edges, inits, seed, extra_per_pair):
+    """attack traces = shortest paths (plus a seeded sample of other paths) of the weakened specs' state graph to states
+    in which an invariant of the faithful spec is violated, one group per (removed guard, invariant)"""
+    parent = vlib.bfs_paths(nodes, edges, inits)
+    depth = {}
+
+    def dep(n):
+        d, stack = 0, []
+        while n is not None and n not in depth:
+            stack.append(n)
+            n = parent[n]
+        d = depth[n] if n is not None else -1
+        for m in reversed(stack):
+            d += 1
+            depth[m] = d
+        return d
+    groups = {}
+    for n, st in nodes.items():
+        if n not in parent:
+            continue
+        # first violation only: the predecessor is still clean
+        inv = _violated(st)
+        if not inv:
+            continue
+        par = parent[n]
+        newly = inv - (_violated(nodes[par]) if par is not None else set())
+        for i in newly:
+            groups.setdefault((st["wk"], i), []).append(n)
+    rng = random.Random(seed)
+    behs, found = [], {}
+    for (wk, inv), ns in sorted(groups.items()):
+        ns.sort(key=lambda n: (dep(n), n))
+        pick = ns[:1] + rng.sample(ns[1:], min(extra_per_pair, len(ns) - 1))
+        found[(wk, inv)] = len(ns)
+        for j, n in enumerate(pick):
+            path = vlib.path_to(parent, n)
+            behs.append({"id": "attack-%s-%s-%d" % (wk, inv, j), "kind": "attack:%s: %s" % (GUARD_TEXT.get(wk, wk), inv),
+                         "steps": [_row(nodes[x]) for x in path]})
+    return behs, found
 
 
 def _last_node(beh_id):
@@ -95,10 +170,13 @@ def run(tier, seed):
     with ThreadPoolExecutor(6) as ex:
         f_mc = ex.submit(vlib.tlc, "MCTimer", T["mc"], workers=6, timeout=T["mc_stop"] + 300, stop_after=T["mc_stop"])
         f_cov = ex.submit(vlib.tlc_dump_graph, "MCTimer", T["cover"], timeout=1500, workers=4)
-        f_att = [(cfg, desc, ex.submit(vlib.tlc, "MCTimer", cfg, workers=1, timeout=600)) for cfg, desc in ATTACKS]
+        f_atg = ex.submit(vlib.tlc_dump_graph, "MCTimer", "Timer_attacks.cfg", timeout=1500, workers=4)
+        f_att = [(cfg, wk, inv, ex.submit(vlib.tlc, "MCTimer", cfg, workers=1, timeout=600)) for cfg, wk, inv in ATTACKS] \
+            if T["single_attacks"] else []
         r = f_mc.result()
         rg, nodes, edges, inits = f_cov.result()
-        attacks = [(cfg, desc, f.result()) for cfg, desc, f in f_att]
+        ra, anodes, aedges, ainits = f_atg.result()
+        singles = [(cfg, wk, inv, f.result()) for cfg, wk, inv, f in f_att]
     for rr, what in ((r, T["mc"]), (rg, T["cover"])):
         if not vlib.expect_tlc_ok(rr, what):
             raise vlib.MachineryError("faithful Timer spec violates %s in %s (model error, not a verdict):\n%s" %
@@ -112,18 +190,24 @@ def run(tier, seed):
 
     # 2. behaviours: cover of the prompt-schedule graph (timer half: every BFS-tree leaf + seeded non-tree edges, each
     #    extended until the timer has run out; controller half: seeded sample) + attack traces
+    log("[C17] TLC phase done (t+%.0fs)" % (time.time() - t0))
     behs, gstat = _behaviours(nodes, edges, inits, seed, T)
     cov["cover_graph"] = gstat
-    attack_behs = []
-    for cfg, desc, ra in attacks:
-        if ra.error:
-            raise vlib.MachineryError("attack config %s: %s" % (cfg, ra.error))
-        if not ra.violation:
-            raise vlib.MachineryError("attack config %s produced no counterexample: the guard it removes is not needed "
-                                      "by the spec any more (model error)" % cfg)
-        attack_behs.append(vlib.trace_behaviour(ra.trace, "attack-" + cfg.replace(".cfg", "").replace("Timer_attack_", ""),
-                                                "attack:" + desc, state_vars=STATE_VARS))
-        transitions += ra.generated
+    if ra.error or ra.violation or not anodes:
+        raise vlib.MachineryError("attack graph Timer_attacks.cfg: %s %s" % (ra.violation, ra.error))
+    attack_behs, found = _attack_behaviours(anodes, aedges, ainits, seed, T["attack_extra"])
+    for cfg, wk, inv in ATTACKS:
+        if (wk, inv) not in found:
+            raise vlib.MachineryError("removing the guard %s does not violate %s in the spec any more (model error)" % (wk, inv))
+    for cfg, wk, inv, rs in singles:   # thorough: TLC itself reports the expected invariant for every single-guard config
+        if rs.error or rs.violation != inv:
+            raise vlib.MachineryError("attack config %s: expected TLC to report %s violated, got %s %s" % (cfg, inv, rs.violation, rs.error))
+        attack_behs.append(vlib.trace_behaviour(rs.trace, "attack-tlc-" + cfg.replace(".cfg", "").replace("Timer_attack_", ""),
+                                                "attack:%s: %s" % (GUARD_TEXT[wk], inv), state_vars=STATE_VARS))
+        transitions += rs.generated
+    cov["attack_pairs"] = {"%s/%s" % k: v for k, v in sorted(found.items())}
+    states += ra.distinct
+    transitions += ra.generated
     cov["attack_traces"] = len(attack_behs)
     inp = os.path.join(wd, "behaviours.ndjson")
     vlib.write_ndjson(inp, behs + attack_behs)
@@ -131,6 +215,7 @@ def run(tier, seed):
     _, wall_replay = vlib.run_driver(bint, ["-mode", "replay", "-in", inp, "-out", outp, "-unit", T["unit"], "-par", str(T["par"])], timeout=3000)
     res = json.load(open(outp))
     _collect(res, verdict, inp)
+    log("[C17] replay done (t+%.0fs)" % (time.time() - t0))
     c = res["counters"]
     cov["replayed_behaviours"] = res["behaviours"]
     cov["replayed_timer"] = c.get("timer_behaviours", 0)
@@ -148,6 +233,7 @@ def run(tier, seed):
     vlib.run_driver(bint, ["-mode", "record", "-trace", tr, "-out", outr, "-seed", str(seed), "-runs", str(T["record_runs"]),
                            "-par", "12"], timeout=3000)
     res2 = json.load(open(outr))
+    log("[C17] record done (t+%.0fs)" % (time.time() - t0))
     _collect(res2, verdict, "record:seed=%d:runs=%d" % (seed, T["record_runs"]))
     with ThreadPoolExecutor(2) as ex:
         f_tv = ex.submit(vlib.tlc_validate_trace, "TimerTrace", "TimerTrace.cfg", tr, None, 1800)
@@ -164,7 +250,7 @@ def run(tier, seed):
         log("[C17] recorded trace REJECTED by the spec near line %d: %s" % (consumed + 1, bad))
         cov["divergences"] += 1
         cov["trace_rejected_at"] = {"line": consumed + 1, "event": bad}
-    log("[C17] %d recorded real-time runs / %d events: accepted=%s" % (res2["behaviours"], nlines, accepted))
+    log("[C17] %d recorded real-time runs / %d events: accepted=%s (t+%.0fs)" % (res2["behaviours"], nlines, accepted, time.time() - t0))
 
     # 4. validator-level path: real timer -> Validator.onTimeout -> queue -> ProcessMessage -> Controller.OnTimeout
     outv = os.path.join(wd, "vpath_result.json")
@@ -247,6 +333,6 @@ def replay(path):
             args += ["-trace", os.path.join(wd, "replay_trace.ndjson"), "-par", "12"]
         vlib.run_driver(bint, args, timeout=3000)
     else:
-        vlib.run_driver(bint, ["-mode", "replay", "-in", path, "-out", outp, "-unit", "12ms", "-par", "64"], timeout=3000)
+        vlib.run_driver(bint, ["-mode", "replay", "-in", path, "-out", outp, "-unit", "15ms", "-par", "64"], timeout=3000)
     _collect(json.load(open(outp)), verdict, path)
     return verdict.report()
